@@ -32,7 +32,7 @@ func c01fRun(c *Ctx, r *zsimrt.Run) {
 	defer zsimrt.Activate(r)
 	er.SetPolicy(zsimrt.OrdSorted)
 	fs := Materialise(L)
-	base := RunLoad(L, fs, "", false)
+	base := RunLoad(L, fs, "", true)
 	c.Count("enumerated-layouts", 1)
 	c.Count("outcome-"+base.Kind(), 1)
 	if clause, key, detail := c01Judge(L, base, nil, fs.Events, base.OK); clause != "" {
@@ -40,6 +40,7 @@ func c01fRun(c *Ctx, r *zsimrt.Run) {
 		c.Violate(Violation{Property: "C01", Clause: clause, Key: clause + ":" + key + optTag(L, clause), Detail: detail, Engine: "c01f", Scenario: b})
 		return
 	}
+	setRequiredByEnabled(L, base)
 	events := append([]zsimrt.IOEvent(nil), fs.Events...)
 	seen := map[string]bool{}
 	n := 0
